@@ -36,6 +36,34 @@ def _given(t, param: str, given: bool):
     return _drop_isinstance(T.assume(t, T.eq(S(param), T.NONE, numeric=False), not given))
 
 
+def rule_phase(chk: Check, model, rid: str):
+    """phase = max(0, non-skipped input phases); phase_output = phase + delay; Connection.phase = sender phase_output + delay
+    (shared with C04: the scheduled time of step k is k/rate + this phase)."""
+    fi_p, ev, r = _ev(model, "node.BaseNode.phase")
+    chk.used(fi_p.qualname)
+    ph = r.ret
+    ok = False
+    detail = T.show(ph)[:240]
+    if ph[0] == "call" and ph[1] == "max" and len(ph[2]) == 1 and ph[2][0][0] == "call" and ph[2][0][1] == "+":
+        a, b = ph[2][0][2]
+        if b[0] == "list":
+            a, b = b, a
+        if a[0] == "list" and len(a[1]) == 1 and T.const_value(a[1][0]) == 0 and b[0] == "comp":
+            elt, gens, conds = b[2], b[3], b[4]
+            el = [x for x in T.walk(elt) if x[0] == "elem"]
+            ok = (len(el) == 1 and elt == T.mk_attr(el[0], "phase") and gens[0][1] == T.mk_call("self.inputs.values", [])
+                  and len(conds) == 1 and conds[0] == T.mk_not(T.mk_attr(el[0], "skip")))
+    chk.add(rid, "BaseNode.phase", ok, f"phase = {detail}, expected max([0.0] + [c.phase for c in inputs if not c.skip])", chk.loc(fi_p))
+    fi, ev, r = _ev(model, "node.BaseNode.phase_output", inline_properties=False)
+    chk.used(fi.qualname)
+    chk.add(rid, "BaseNode.phase_output", r.ret == T.add(S("self.phase"), S("self.delay")),
+            f"phase_output = {T.show(r.ret)[:160]}, expected self.phase + self.delay", chk.loc(fi))
+    fi, ev, r = _ev(model, "node.Connection.phase", inline_properties=False)
+    chk.used(fi.qualname)
+    chk.add(rid, "Connection.phase", r.ret == T.add(S("self.output_node.phase_output"), S("self.delay")),
+            f"Connection.phase = {T.show(r.ret)[:160]}, expected self.output_node.phase_output + self.delay", chk.loc(fi))
+
+
 def run(chk: Check, model):
     chk.rule("C16.setter", "set_delay: each parameter that is given reaches the same-named attribute; an omitted one keeps the old value (A4)")
     chk.rule("C16.init", "constructor parameters reach their attributes; the default expected delay is the 0.99 quantile and asserted >= 0")
@@ -205,29 +233,7 @@ def run(chk: Check, model):
     chk.add("C16.info", "NodeInfo.inputs", bool(ok), f"NodeInfo.inputs = {T.show(inp)[:200] if inp else None}, expected {{c.output_node.name: c.info for all inputs}}", chk.loc(fi_ni))
 
     # ------------------------------------------------------------------ phase recurrence
-    fi_p, ev, r = _ev(model, "node.BaseNode.phase")
-    chk.used(fi_p.qualname)
-    ph = r.ret
-    ok = False
-    detail = T.show(ph)[:240]
-    if ph[0] == "call" and ph[1] == "max" and len(ph[2]) == 1 and ph[2][0][0] == "call" and ph[2][0][1] == "+":
-        a, b = ph[2][0][2]
-        if b[0] == "list":
-            a, b = b, a
-        if a[0] == "list" and len(a[1]) == 1 and T.const_value(a[1][0]) == 0 and b[0] == "comp":
-            elt, gens, conds = b[2], b[3], b[4]
-            el = [x for x in T.walk(elt) if x[0] == "elem"]
-            ok = (len(el) == 1 and elt == T.mk_attr(el[0], "phase") and gens[0][1] == T.mk_call("self.inputs.values", [])
-                  and len(conds) == 1 and conds[0] == T.mk_not(T.mk_attr(el[0], "skip")))
-    chk.add("C16.phase", "BaseNode.phase", ok, f"phase = {detail}, expected max([0.0] + [c.phase for c in inputs if not c.skip])", chk.loc(fi_p))
-    fi, ev, r = _ev(model, "node.BaseNode.phase_output", inline_properties=False)
-    chk.used(fi.qualname)
-    chk.add("C16.phase", "BaseNode.phase_output", r.ret == T.add(S("self.phase"), S("self.delay")),
-            f"phase_output = {T.show(r.ret)[:160]}, expected self.phase + self.delay", chk.loc(fi))
-    fi, ev, r = _ev(model, "node.Connection.phase", inline_properties=False)
-    chk.used(fi.qualname)
-    chk.add("C16.phase", "Connection.phase", r.ret == T.add(S("self.output_node.phase_output"), S("self.delay")),
-            f"Connection.phase = {T.show(r.ret)[:160]}, expected self.output_node.phase_output + self.delay", chk.loc(fi))
+    rule_phase(chk, model, "C16.phase")
     fi, ev, r = _ev(model, "node.BaseNode.info", inline_properties=False)
     nw = dict(r.ret[2]) if r.ret[0] == "obj" else {}
     chk.add("C16.phase", "NodeInfo.phase reads the property", nw.get("phase") == S("self.phase"), f"NodeInfo.phase = {T.show(nw.get('phase', T.NONE))[:120]}", chk.loc(fi_ni))
